@@ -293,3 +293,63 @@ func VerifC16_ManagerAssignments() {
 	vAssert(len(w.events(api.ReplicateError)) == 0, "C16.no-error")
 	vReach("end")
 }
+
+// c16CheckTable: the manager's mapping table against the assignments seen so far
+func (w *c04World) c16CheckTable(N int, assigned map[string]string) {
+	w.mgr.channelLock.Lock()
+	used := map[string]int{}
+	for i := 0; i < N; i++ {
+		src := c16Chan("src", i)
+		got := w.c16Assigned(N, src)
+		vAssert(len(got) <= 1, "C16.a-source-channel-has-at-most-one-downstream-channel")
+		if len(got) == 0 {
+			_, was := assigned[src]
+			vAssert(!was, "C16.an-assignment-never-disappears")
+			continue
+		}
+		if prev, was := assigned[src]; was {
+			vAssert(prev == got[0], "C16.an-assignment-never-changes-once-made")
+		}
+		assigned[src] = got[0]
+		used[got[0]]++
+	}
+	for _, n := range used {
+		vAssert(n <= 1, "C16.equal-counts-give-a-one-to-one-assignment")
+	}
+	w.mgr.channelLock.Unlock()
+}
+
+// VerifC16_RepeatedOffers: equal counts (N = 3). Source channel 0 is assigned downstream
+// channel 0; then collections on source channel 0 whose shards the downstream placed on other
+// channels make the manager OFFER those free downstream channels - the same free channel
+// possibly several times before anybody waits for one; then the other source channels arrive,
+// paired with an occupied downstream channel, wait and take the offers. However often a free
+// channel was offered it may be handed out once.
+func VerifC16_RepeatedOffers() {
+	N := 3
+	w := c04NewRealWorld(N)
+	assigned := map[string]string{}
+	var cs []c02Coll
+	k := 0
+	start := func(s, t int) {
+		id := int64(100 + 10*k)
+		c := c02MkColl(id, id+800, "C"+string(rune('0'+k)), [2]string{c16Chan("src", s), c16Chan("tgt", t)})
+		k++
+		cs = append(cs, c)
+		vAssert(w.c02Start(cs, c) == nil, "C16.start-ok")
+		for i := 0; i < 6; i++ {
+			vQuiesce()
+		}
+		w.c16CheckTable(N, assigned)
+	}
+	start(0, 0)
+	offers := 1 + vChoice("offers", 3)
+	for i := 0; i < offers; i++ {
+		start(0, 1+vChoice("offered.target", 2))
+	}
+	// the waiters: source channels 1 and 2, each paired with an occupied downstream channel
+	start(1, 0)
+	start(2, vChoice("lastWaiter.pairedWith", 2))
+	vAssert(len(w.events(api.ReplicateError)) == 0, "C16.no-error")
+	vReach("end")
+}
